@@ -120,6 +120,9 @@ theorem ini_write_in_bounds (file : Option Bytes) (_hfile : ∀ t, file = some t
     (anyRun (Ini.openFile file shouldwrite) ops).isSome = true :=
   AslProofs.Ini.anyRun_isSome _ (AslProofs.Ini.openFile_hasNE file shouldwrite) ops
 
+/-- the comment line `; c` is not an entry line, `a=1` is -/
+example : isEntryLine [59, 32, 99] = false ∧ isEntryLine [97, 61, 49] = true := by decide
+
 /-- **ini_order.**  For *any* object state, the text `write` produces consists of all the lines of `_lines` in
     their original order — comment lines, section headers, blank lines and any other non-entry line byte for
     byte, entry lines respelled `indent key=value` with the same key — with new lines only *inserted*
@@ -160,8 +163,9 @@ theorem ini_order_file (doc : List Item) (hd : ∀ it ∈ doc, it.WF) (eol : Byt
 /-! ## TabularDataFile -/
 
 /-- **csv_row_roundtrip.**  For every separator other than the quote and every non-empty row of cells — strings of
-    *any* bytes (separators, quotes, blanks, empty strings, a row that is one empty string) and number texts —
-    parsing the written row gives back the cells' texts, cell for cell. -/
+    any bytes other than NUL, LF and CR (separators, quotes, blanks, empty strings, a row that is one empty
+    string; the file is read with C-string primitives line by line, so a cell can hold none of those three) and
+    number texts — parsing the written row gives back the cells' texts, cell for cell. -/
 theorem csv_row_roundtrip (sep : UInt8) (hsep : sep ≠ 34) (c : Cell) (t : List Cell)
     (hc : CellOK sep c) (ht : ∀ x ∈ t, CellOK sep x) :
     parseRow sep (writeRow sep 34 (c :: t)) = cellText c :: t.map cellText :=
@@ -187,14 +191,27 @@ example : ColOK [120] ∧ CellWF (.str [97, 44, 34, 98]) := by
   refine ⟨⟨?_, 120, [], rfl, by decide⟩, by decide, by decide, by decide, by decide⟩
   intro c hc; simp at hc; subst hc; decide
 
-/-- **csv_number_exact_Q.**  Every number text `[-]digits[.digits][(e|E)[+|-]digits]` (in particular every
-    `%.15g` output) is recognised as a number by `myisnumber`, and the rational number `± y1 · 10^exp` that
-    `myatof` computes before its final floating-point multiplication is *exactly* the number the text spells. -/
-theorem csv_number_exact_Q (n : Num) (h : n.WF) :
-    isNumber 46 n.text = true ∧ decValue (atofDec n.text) = numValue n :=
-  ⟨AslProofs.Csv.isNumber_text n h, AslProofs.Csv.number_exact n h⟩
+/-- **csv_number_exact_Q.**  Every number text `[-]digits[.digits][(e|E)[+|-]digits]` with at most 18 mantissa digits
+    and at most 9 exponent digits (in particular every `%.15g` output) is recognised as a number by `myisnumber`;
+    on it the code's `long long y1` stays below 2^63 and its `int` exponent within ±2^31, so the model's unbounded
+    integers are the machine's (every intermediate value of the digit loops is a prefix value, hence smaller); and
+    the rational number `± y1 · 10^exp` that `myatof` holds before its final floating-point multiplication is
+    *exactly* the number the text spells.  (Longer mantissas or exponents overflow in the C code and are outside
+    this theorem; what `double(y1) * pow(10.0, exp)` then rounds to is floating point and not covered by any theorem.) -/
+theorem csv_number_exact_Q (n : Num) (h : n.WF) (hr : n.InRange) :
+    isNumber 46 n.text = true ∧ decValue (atofDec n.text) = numValue n ∧
+    0 ≤ (atofDec n.text).mant ∧ (atofDec n.text).mant < 2 ^ 63 ∧
+    -(2 ^ 31 : Int) < (atofDec n.text).exp ∧ (atofDec n.text).exp < 2 ^ 31 :=
+  ⟨AslProofs.Csv.isNumber_text n h, AslProofs.Csv.number_exact n h, AslProofs.Csv.number_in_range n h hr⟩
 
-/-- `-12.5e-3` is a number text -/
+/-- `-12.5e-3` is a number text within the range -/
+example : (⟨true, [49, 50], some [53], some (101, some true, [51])⟩ : Num).InRange := by
+  refine ⟨by decide, ?_⟩
+  intro e sgn ed h
+  simp at h
+  obtain ⟨rfl, rfl, rfl⟩ := h
+  decide
+
 example : (⟨true, [49, 50], some [53], some (101, some true, [51])⟩ : Num).WF := by
   have d1 : IsDigits [49, 50] := by intro c hc; simp at hc; rcases hc with rfl | rfl <;> decide
   have d2 : IsDigits [53] := by intro c hc; simp at hc; subst hc; decide
